@@ -120,10 +120,13 @@ func run(c *core.Case) {
 	var recs []readRec
 	var rmu sync.Mutex
 	var commitErrs atomic.Int64
+	var committersLeft atomic.Int64
+	committersLeft.Store(int64(nCommitters))
 	for w := 0; w < nCommitters; w++ {
 		wg.Add(1)
 		go func(w int) {
 			defer wg.Done()
+			defer committersLeft.Add(-1)
 			for i := 0; i < rounds; i++ {
 				id := fmt.Sprintf("c%d.%d", w, i)
 				txn := db.NewTransaction(true)
@@ -140,7 +143,12 @@ func run(c *core.Case) {
 		wg.Add(1)
 		go func(r int) {
 			defer wg.Done()
-			for i := 0; i < rounds; i++ {
+			// readers keep beginning transactions for as long as committers run
+			// (committers are slowed down by the perturbation), at most 600 rounds
+			for i := 0; i < 600 && (i < rounds || committersLeft.Load() > 0); i++ {
+				if i >= rounds {
+					time.Sleep(time.Duration(50+r*37) * time.Microsecond)
+				}
 				rec := readRec{Reader: r, First: map[string]string{}, Second: map[string]string{}, Iter: map[string]string{}, Started: p.seq.Add(1)}
 				txn := db.NewTransaction(false)
 				rec.ReadTs = txn.ReadTs()
